@@ -10,7 +10,9 @@
     observation record: `kalmanRun` / `kalmanTrace` (state machine);
     `Kalman.stationary_values` (243-278) after the Riccati solve:
     `stationaryGain` (`K = (A Σ∞) G' inv(G (Σ∞ G') + R)`); Σ∞ itself is an input
-    (the Riccati solver is property C06's subject).
+    (the Riccati solver is property C06's subject). The instance with its cache
+    `_Sigma_infinity` / `_K_infinity` is `KObj`; a history of public calls on one instance is
+    `objRun` / `objTrace` over `KOp` (only `stat` writes the cache, nothing reads it).
   * `simulate_linear_model` (`_lss.py` 14-59): `simCol` is the body of the
     `for i … for j` double loop with the code's accumulation order
     (`x[i,t+1] = v[i,t]; x[i,t+1] += A[i,j] x[j,t]`), `simCols` the `for t` loop,
@@ -97,6 +99,52 @@ def stationaryGain (inv : M α → Option (M α)) (A G H Sig : M α) : Option (M
 /-- `stationary_innovation_covar`: `G (Σ∞ G') + R` -/
 def innovationCovar (G H Sig : M α) : M α :=
   madd (mmul G (mmul Sig (mT G))) (mmul H (mT H))
+
+/-! ### the Kalman object with its cached stationary values -/
+
+/-- a `Kalman` instance: the state `(x_hat, Sigma)` and the cache `_Sigma_infinity`, `_K_infinity`
+    (`None` until `stationary_values` has run) -/
+structure KObj (α : Type) where
+  st : KState α
+  sigInf : Option (M α)
+  kInf : Option (M α)
+
+/-- the public operations on one instance. `stat Sig`: `stationary_values()` whose Riccati solve
+    returned `Sig` (also what the `K_infinity` / `Sigma_infinity` properties, `whitener_lss`,
+    `stationary_coefficients`, `stationary_innovation_covar` trigger on first use). -/
+inductive KOp (α : Type) where
+  | stat (Sig : M α)
+  | setState (x S : M α)
+  | p2f (y : M α)
+  | f2f
+  | update (y : M α)
+
+/-- one call; `none` = `inv` raised. Only `stat` writes the cache, and nothing reads it
+    (`update` is lines 241-242: `prior_to_filtered(y); filtered_to_forecast()`). -/
+def objStep (inv : M α → Option (M α)) (A C G H : M α) (o : KObj α) : KOp α → Option (KObj α)
+  | .stat Sig => (stationaryGain inv A G H Sig).map fun K => { o with sigInf := some Sig, kInf := some K }
+  | .setState x S => some { o with st := ⟨x, S⟩ }
+  | .p2f y => (priorToFiltered inv G H o.st y).map fun s => { o with st := s }
+  | .f2f => some { o with st := filteredToForecast A C o.st }
+  | .update y => (update inv A C G H o.st y).map fun s => { o with st := s }
+
+/-- a whole history of calls on one instance -/
+def objRun (inv : M α → Option (M α)) (A C G H : M α) : KObj α → List (KOp α) → Option (KObj α)
+  | o, [] => some o
+  | o, op :: ops =>
+    match objStep inv A C G H o op with
+    | none => none
+    | some o1 => objRun inv A C G H o1 ops
+
+/-- the objects after each call (for the driver); stops at the first failure -/
+def objTrace (inv : M α → Option (M α)) (A C G H : M α) : KObj α → List (KOp α) → List (KObj α) × Bool
+  | _, [] => ([], true)
+  | o, op :: ops =>
+    match objStep inv A C G H o op with
+    | none => ([], false)
+    | some o1 =>
+      let r := objTrace inv A C G H o1 ops
+      (o1 :: r.1, r.2)
 
 /-! ### the jitted simulation kernel -/
 
@@ -344,6 +392,33 @@ def handle (toks : List String) : String :=
         else "bad-op"
       else "bad-op"
     | _, _, _, _, _, _, _, _ => "bad-op"
+  | "history" :: r =>
+    -- a sequence of calls on ONE Kalman instance: op<i> in {stat,set,p2f,f2f,update} with Sg<i> / x<i>,S<i> / y<i>
+    match kvRatMat r "A", kvRatMat r "C", kvRatMat r "G", kvRatMat r "H", kvRats r "x", kvRatMat r "S", kvNat r "n" with
+    | some A, some C, some G, some H, some x, some S, some cnt =>
+      let n := A.length
+      let k := G.length
+      let parseOp (i : Nat) : Option (KOp Rat) :=
+        match kv r s!"op{i}" with
+        | some "stat" => (kvRatMat r s!"Sg{i}").bind fun Sg => if dims Sg n n then some (.stat (matOf Sg)) else none
+        | some "set" =>
+          match kvRats r s!"x{i}", kvRatMat r s!"S{i}" with
+          | some xi, some Si => if xi.length == n && dims Si n n then some (.setState (colOf xi) (matOf Si)) else none
+          | _, _ => none
+        | some "p2f" => (kvRats r s!"y{i}").bind fun y => if y.length == k then some (.p2f (colOf y)) else none
+        | some "update" => (kvRats r s!"y{i}").bind fun y => if y.length == k then some (.update (colOf y)) else none
+        | some "f2f" => some .f2f
+        | _ => none
+      match (List.range cnt).mapM parseOp with
+      | some ops =>
+        if ssOk A C G (some H) && x.length == n && dims S n n && cnt ≤ 64 then
+          let tr := objTrace inv (matOf A) (matOf C) (matOf G) (matOf H) ⟨⟨colOf x, matOf S⟩, none, none⟩ ops
+          let body := " ".intercalate (tr.1.zipIdx.map fun (o, t) =>
+            s!"x{t}={showA o.st.xhat} S{t}={showA o.st.sigma} K{t}={match o.kInf with | some K => showA K | none => "-"}")
+          if tr.2 then s!"ok {body}" else s!"ERR:LinAlgError step={tr.1.length} {body}"
+        else "bad-op"
+      | none => "bad-op"
+    | _, _, _, _, _, _, _ => "bad-op"
   | "statgain" :: r =>
     match kvRatMat r "A", kvRatMat r "G", kvRatMat r "H", kvRatMat r "S" with
     | some A, some G, some H, some S =>
